@@ -1,35 +1,12 @@
 (* JsExpr/Equiv.v — the standard's productions (Grammar.v) against the spellings the parser accepts (Spec.v).
-     derives_spells : a derivation whose tree has no `++x ** y` / `--x ** y` node is a strict spelling;
-     spells_derives : a spelling is a derivation, after deleting the trailing commas of parenthesised lists. *)
+     derives_spells : a derivation is a spelling;
+     spells_derives : a spelling is a derivation. *)
 From Coq Require Import ZifyBool.
 From Verif Require Import Common.Base Common.Tactics Gen.PrattTable JsExpr.Syntax JsExpr.Pratt JsExpr.Grammar
   JsExpr.Spec JsExpr.TableFacts JsExpr.Sound.
 
-(* ---- trees without a prefix update as the base of ** ---------------------------------------------------------- *)
-
 Definition is_prefix_update (t : expr) : bool :=
   match t with EUnary op _ => (op =? tt_PreIncrToken) || (op =? tt_PreDecrToken) | _ => false end.
-
-Fixpoint no_pue (t : expr) : bool :=
-  match t with
-  | EVar _ | ELit _ _ => true
-  | EGroup x => no_pue x
-  | EUnary _ x => no_pue x
-  | EBinary op x y => negb ((op =? tt_ExpToken) && is_prefix_update x) && no_pue x && no_pue y
-  | ECond c x y => no_pue c && no_pue x && no_pue y
-  | EDot x _ => no_pue x
-  | EIndex x y => no_pue x && no_pue y
-  | ECall x args => no_pue x && forallb no_pue args
-  | EComma l => forallb no_pue l
-  end.
-
-Lemma no_pue_snoc x y : no_pue (comma_snoc x y) = true -> no_pue x = true /\ no_pue y = true.
-Proof.
-  destruct x; cbn [comma_snoc no_pue forallb]; intros H;
-    try (apply andb_true_iff in H; destruct H as [H1 H2]; rewrite andb_true_r in H2; auto; fail).
-  rewrite forallb_app in H. cbn [forallb] in H. apply andb_true_iff in H. destruct H as [H1 H2].
-  rewrite andb_true_r in H2. auto.
-Qed.
 
 (* ---- what a derivation at nonterminal N says about the level of its tree --------------------------------------- *)
 
@@ -37,11 +14,10 @@ Definition inv (n : nt) (t : expr) : Prop :=
   match n with
   | Coalesce => lvl t = prec_OpCoalesce
   | CoalesceHead => lvl t = prec_OpCoalesce \/ prec_OpBitOr <= lvl t
-  | Update => prec_OpUpdate <= lvl t \/ is_prefix_update t = true
   | _ => code_level n <= lvl t
   end.
 
-Lemma prefix_update_lvl t : is_prefix_update t = true -> lvl t = prec_OpUnary.
+Lemma prefix_update_lvl t : is_prefix_update t = true -> lvl t = prec_OpUpdate.
 Proof.
   destruct t; cbn [is_prefix_update]; try discriminate. intros H. cbn [lvl].
   apply orb_true_iff in H. destruct H as [H|H]; apply Z.eqb_eq in H; subst op; reflexivity.
@@ -51,8 +27,6 @@ Lemma inv_chain a b t : In (a, b) chain_prods -> inv b t -> inv a t.
 Proof.
   pose proof prec_order as PO. unfold chain_prods. cbn [In]. intros H.
   repeat (destruct H as [H|H]; [inversion H; subst; cbn [inv code_level]; intros Hb; try lia|]); try contradiction.
-  (* Unary : Update *)
-  destruct Hb as [Hb|Hb]; [lia|]. rewrite (prefix_update_lvl _ Hb). lia.
 Qed.
 
 (* ---- the arms of the generated table, read through the productions ----------------------------------------------- *)
@@ -105,7 +79,7 @@ Proof.
   repeat (destruct H as [H|H]; [inversion H as [[E1 E2]]; unfold pview; rewrite <- E1; reflexivity|]). contradiction.
 Qed.
 
-Lemma pview_prefix_update k op : In (ty k, op) prefix_update_prods -> pview k = PUnary prec_OpUpdate op prec_OpUnary prec_OpUnary.
+Lemma pview_prefix_update k op : In (ty k, op) prefix_update_prods -> pview k = PUnary prec_OpUpdate op prec_OpUnary prec_OpUpdate.
 Proof.
   cbn [In prefix_update_prods]. intros H.
   repeat (destruct H as [H|H]; [inversion H as [[E1 E2]]; unfold pview; rewrite <- E1; reflexivity|]). contradiction.
@@ -143,148 +117,140 @@ Proof.
   intros H. unfold okl_of. destruct (Z.ltb_spec p r); [lia|reflexivity].
 Qed.
 
-(* ---- derivations are strict spellings ------------------------------------------------------------------------------ *)
-
-Ltac split_no H :=
-  repeat match type of H with
-  | (_ && _) = true => let H1 := fresh "Hn" in apply andb_true_iff in H; destruct H as [H H1]
-  end.
+(* ---- derivations are spellings ------------------------------------------------------------------------------ *)
 
 Lemma derives_spells_all :
-  (forall inf n ts t (d : derives inf n ts t), no_pue t = true -> spells false inf ts t /\ inv n t) /\
-  (forall ats args (d : arguments ats args), forallb no_pue args = true -> spells_args false ats args).
+  (forall inf n ts t (d : derives inf n ts t), spells inf ts t /\ inv n t) /\
+  (forall ats args (d : arguments ats args), spells_args ats args).
 Proof.
   pose proof prec_order as PO.
   apply (derives_arguments_ind
-           (fun inf n ts t _ => no_pue t = true -> spells false inf ts t /\ inv n t)
-           (fun ats args _ => forallb no_pue args = true -> spells_args false ats args)).
+           (fun inf n ts t _ => spells inf ts t /\ inv n t)
+           (fun ats args _ => spells_args ats args)).
   - (* chain *)
-    intros inf a b ts t Hc d IH Hn. destruct (IH Hn) as [Hs Hi]. split; [exact Hs|]. eapply inv_chain; eauto.
+    intros inf a b ts t Hc d IH. destruct IH as [Hs Hi]. split; [exact Hs|]. eapply inv_chain; eauto.
   - (* identifier *)
-    intros inf k Hk _. split; [apply SP_leaf; apply pview_ident; exact Hk|]. cbn [inv code_level lvl]. lia.
+    intros inf k Hk. split; [apply SP_leaf; apply pview_ident; exact Hk|]. cbn [inv code_level lvl]. lia.
   - (* literal *)
-    intros inf k Hk _. split; [apply SP_leaf; apply pview_literal; exact Hk|]. cbn [inv code_level lvl]. lia.
+    intros inf k Hk. split; [apply SP_leaf; apply pview_literal; exact Hk|]. cbn [inv code_level lvl]. lia.
   - (* parenthesis *)
-    intros inf ko kc ts t Hko Hkc d IH Hn. cbn [no_pue] in Hn. destruct (IH Hn) as [Hs Hi]. cbn [inv code_level] in Hi.
+    intros inf ko kc ts t Hko Hkc d IH. destruct IH as [Hs Hi]. cbn [inv code_level] in Hi.
     split; [|cbn [inv code_level lvl]; lia].
-    apply (SP_group false inf ko prec_OpAssign prec_OpExpr ts t kc); [apply pview_lp; exact Hko|exact Hs|lia|exact Hkc].
+    apply (SP_group inf ko prec_OpAssign prec_OpExpr ts t kc); [apply pview_lp; exact Hko|exact Hs|lia|exact Hkc].
   - (* member [ ] *)
-    intros inf xs x ko ys y kc dx IHx Hko dy IHy Hkc Hn. cbn [no_pue] in Hn. split_no Hn.
-    destruct (IHx Hn) as [Hsx Hix]. destruct (IHy Hn0) as [Hsy Hiy]. cbn [inv code_level] in Hix, Hiy.
+    intros inf xs x ko ys y kc dx IHx Hko dy IHy Hkc.
+    destruct IHx as [Hsx Hix]. destruct IHy as [Hsy Hiy]. cbn [inv code_level] in Hix, Hiy.
     split; [|cbn [inv code_level lvl]; rewrite cap_ge by lia; lia].
-    apply (SP_index false inf ko prec_OpLHS prec_OpMember prec_OpExpr xs x ys y kc);
+    apply (SP_index inf ko prec_OpLHS prec_OpMember prec_OpExpr xs x ys y kc);
       [rewrite Hko; apply view_lb|exact Hsx|lia|exact Hsy|lia|exact Hkc].
   - (* member . *)
-    intros inf xs x kd n dx IHx Hkd Hname Hn. cbn [no_pue] in Hn.
-    destruct (IHx Hn) as [Hsx Hix]. cbn [inv code_level] in Hix.
+    intros inf xs x kd n dx IHx Hkd Hname.
+    destruct IHx as [Hsx Hix]. cbn [inv code_level] in Hix.
     split; [|cbn [inv code_level lvl]; rewrite cap_ge by lia; lia].
-    apply (SP_dot false inf kd prec_OpLHS prec_OpMember xs x n);
+    apply (SP_dot inf kd prec_OpLHS prec_OpMember xs x n);
       [rewrite Hkd; apply view_dot|exact Hsx|lia|exact Hname|apply name_not_private; exact Hname].
   - (* call: member arguments *)
-    intros inf xs x ko ats args dx IHx Hko da IHa Hn. cbn [no_pue] in Hn. split_no Hn.
-    destruct (IHx Hn) as [Hsx Hix]. cbn [inv code_level] in Hix.
+    intros inf xs x ko ats args dx IHx Hko da IHa.
+    destruct IHx as [Hsx Hix]. cbn [inv code_level] in Hix.
     split; [|cbn [inv code_level lvl]; rewrite cap_ge by lia; lia].
-    apply (SP_call false inf ko prec_OpCall prec_OpLHS prec_OpCall xs x ats args);
-      [rewrite Hko; apply view_lp|exact Hsx|lia|apply IHa; exact Hn0].
+    apply (SP_call inf ko prec_OpCall prec_OpLHS prec_OpCall xs x ats args);
+      [rewrite Hko; apply view_lp|exact Hsx|lia|exact IHa].
   - (* call: call arguments *)
-    intros inf xs x ko ats args dx IHx Hko da IHa Hn. cbn [no_pue] in Hn. split_no Hn.
-    destruct (IHx Hn) as [Hsx Hix]. cbn [inv code_level] in Hix.
+    intros inf xs x ko ats args dx IHx Hko da IHa.
+    destruct IHx as [Hsx Hix]. cbn [inv code_level] in Hix.
     split; [|cbn [inv code_level lvl]; rewrite cap_ge by lia; lia].
-    apply (SP_call false inf ko prec_OpCall prec_OpLHS prec_OpCall xs x ats args);
-      [rewrite Hko; apply view_lp|exact Hsx|lia|apply IHa; exact Hn0].
+    apply (SP_call inf ko prec_OpCall prec_OpLHS prec_OpCall xs x ats args);
+      [rewrite Hko; apply view_lp|exact Hsx|lia|exact IHa].
   - (* call [ ] *)
-    intros inf xs x ko ys y kc dx IHx Hko dy IHy Hkc Hn. cbn [no_pue] in Hn. split_no Hn.
-    destruct (IHx Hn) as [Hsx Hix]. destruct (IHy Hn0) as [Hsy Hiy]. cbn [inv code_level] in Hix, Hiy.
+    intros inf xs x ko ys y kc dx IHx Hko dy IHy Hkc.
+    destruct IHx as [Hsx Hix]. destruct IHy as [Hsy Hiy]. cbn [inv code_level] in Hix, Hiy.
     split; [|cbn [inv code_level lvl]; unfold cap; destruct (Z.ltb_spec prec_OpMember (lvl x)); lia].
-    apply (SP_index false inf ko prec_OpLHS prec_OpMember prec_OpExpr xs x ys y kc);
+    apply (SP_index inf ko prec_OpLHS prec_OpMember prec_OpExpr xs x ys y kc);
       [rewrite Hko; apply view_lb|exact Hsx|lia|exact Hsy|lia|exact Hkc].
   - (* call . *)
-    intros inf xs x kd n dx IHx Hkd Hname Hn. cbn [no_pue] in Hn.
-    destruct (IHx Hn) as [Hsx Hix]. cbn [inv code_level] in Hix.
+    intros inf xs x kd n dx IHx Hkd Hname.
+    destruct IHx as [Hsx Hix]. cbn [inv code_level] in Hix.
     split; [|cbn [inv code_level lvl]; unfold cap; destruct (Z.ltb_spec prec_OpMember (lvl x)); lia].
-    apply (SP_dot false inf kd prec_OpLHS prec_OpMember xs x n);
+    apply (SP_dot inf kd prec_OpLHS prec_OpMember xs x n);
       [rewrite Hkd; apply view_dot|exact Hsx|lia|exact Hname|apply name_not_private; exact Hname].
   - (* postfix *)
-    intros inf xs x k op dx IHx Hop Hlt Hn. cbn [no_pue] in Hn.
-    destruct (IHx Hn) as [Hsx Hix]. cbn [inv code_level] in Hix.
+    intros inf xs x k op dx IHx Hop Hlt.
+    destruct IHx as [Hsx Hix]. cbn [inv code_level] in Hix.
     assert (Hpo : is_postfix_op op = true).
     { cbn [In postfix_update_prods] in Hop. destruct Hop as [H|[H|[]]]; inversion H; reflexivity. }
-    split; [|cbn [inv lvl]; rewrite Hpo; left; lia].
-    apply (SP_postfix false inf k prec_OpUpdate prec_OpLHS op prec_OpUpdate xs x);
+    split; [|cbn [inv code_level lvl]; rewrite (postfix_is_update _ Hpo); lia].
+    apply (SP_postfix inf k prec_OpUpdate prec_OpLHS op prec_OpUpdate xs x);
       [apply view_postfix; exact Hop|exact Hlt|exact Hsx|lia].
   - (* prefix update *)
-    intros inf k op xs x Hop dx IHx Hn. cbn [no_pue] in Hn.
-    destruct (IHx Hn) as [Hsx Hix]. cbn [inv code_level] in Hix.
+    intros inf k op xs x Hop dx IHx.
+    destruct IHx as [Hsx Hix]. cbn [inv code_level] in Hix.
     split.
-    + apply (SP_prefix false inf k prec_OpUpdate op prec_OpUnary prec_OpUnary xs x);
+    + apply (SP_prefix inf k prec_OpUpdate op prec_OpUnary prec_OpUpdate xs x);
         [apply pview_prefix_update; exact Hop|exact Hsx|lia].
-    + cbn [inv]. right. cbn [In prefix_update_prods] in Hop. destruct Hop as [H|[H|[]]]; inversion H; reflexivity.
+    + cbn [inv code_level lvl]. cbn [In prefix_update_prods] in Hop. destruct Hop as [H|[H|[]]]; inversion H; cbn; lia.
   - (* unary *)
-    intros inf k op xs x Hop dx IHx Hn. cbn [no_pue] in Hn.
-    destruct (IHx Hn) as [Hsx Hix]. cbn [inv code_level] in Hix.
+    intros inf k op xs x Hop dx IHx.
+    destruct IHx as [Hsx Hix]. cbn [inv code_level] in Hix.
     split.
-    + apply (SP_prefix false inf k prec_OpUnary op prec_OpUnary prec_OpUnary xs x);
+    + apply (SP_prefix inf k prec_OpUnary op prec_OpUnary prec_OpUnary xs x);
         [apply pview_unary; exact Hop|exact Hsx|lia].
     + cbn [inv code_level lvl]. cbn [In unary_prods] in Hop.
       repeat (destruct Hop as [Hop|Hop]; [inversion Hop; cbn; lia|]). contradiction.
   - (* binary productions *)
-    intros inf a l ops r xs x k ys y Hp Hop dx IHx dy IHy Hn. cbn [no_pue] in Hn. split_no Hn.
-    destruct (IHx Hn1) as [Hsx Hix]. destruct (IHy Hn0) as [Hsy Hiy].
+    intros inf a l ops r xs x k ys y Hp Hop dx IHx dy IHy.
+    destruct IHx as [Hsx Hix]. destruct IHy as [Hsy Hiy].
     pose proof (bin_view_of_prod _ _ _ _ _ inf Hp Hop) as Hv.
     assert (Hl : lv l <= lvl x /\ lv r <= lvl y /\ code_level a = lv a /\ inv a (EBinary (ty k) x y)).
     { assert (El : lvl (EBinary (ty k) x y) = lv a) by (cbn [lvl]; eapply bin_level_of; exact Hv).
       unfold binary_prods in Hp. cbn [In] in Hp.
-      repeat (destruct Hp as [Hp|Hp]; [inversion Hp; subst; cbn [inv code_level lv] in *; rewrite ?El; try lia|]); try contradiction.
-      (* Exponentiation : Update ** Exponentiation *)
-      destruct Hix as [Hix|Hix]; [lia|]. exfalso.
-      cbn [In] in Hop. destruct Hop as [Hop|[]]. rewrite <- Hop, Hix in Hn. discriminate. }
+      repeat (destruct Hp as [Hp|Hp]; [inversion Hp; subst; cbn [inv code_level lv] in *; rewrite ?El; try lia|]); try contradiction. }
     destruct Hl as [Hlx [Hly [_ Hia]]].
     split; [|exact Hia].
-    apply (SP_binary false inf k _ _ _ _ _ xs x ys y Hv); [exact Hsx|apply okl_same; exact Hlx|exact Hsy|exact Hly].
+    apply (SP_binary inf k _ _ _ _ _ xs x ys y Hv); [exact Hsx|apply okl_same; exact Hlx|exact Hsy|exact Hly].
   - (* in *)
-    intros xs x k ys y dx IHx Hk dy IHy Hn. cbn [no_pue] in Hn. split_no Hn.
-    destruct (IHx Hn1) as [Hsx Hix]. destruct (IHy Hn0) as [Hsy Hiy]. cbn [inv code_level] in Hix, Hiy.
+    intros xs x k ys y dx IHx Hk dy IHy.
+    destruct IHx as [Hsx Hix]. destruct IHy as [Hsy Hiy]. cbn [inv code_level] in Hix, Hiy.
     assert (Hv : sview true (ty k) = ABin prec_OpCompare prec_OpCompare prec_OpCompare prec_OpShift prec_OpCompare)
       by (rewrite Hk; exact view_in).
     split; [|cbn [inv code_level lvl]; rewrite (bin_level_of _ _ _ _ _ _ _ Hv); lia].
-    apply (SP_binary false true k _ _ _ _ _ xs x ys y Hv); [exact Hsx|apply okl_same; exact Hix|exact Hsy|exact Hiy].
+    apply (SP_binary true k _ _ _ _ _ xs x ys y Hv); [exact Hsx|apply okl_same; exact Hix|exact Hsy|exact Hiy].
   - (* ?? *)
-    intros inf xs x k ys y dx IHx Hk dy IHy Hn. cbn [no_pue] in Hn. split_no Hn.
-    destruct (IHx Hn1) as [Hsx Hix]. destruct (IHy Hn0) as [Hsy Hiy]. cbn [inv code_level] in Hix, Hiy.
+    intros inf xs x k ys y dx IHx Hk dy IHy.
+    destruct IHx as [Hsx Hix]. destruct IHy as [Hsy Hiy]. cbn [inv code_level] in Hix, Hiy.
     assert (Hv : sview inf (ty k) = ABin prec_OpCoalesce prec_OpBitOr prec_OpCoalesce prec_OpBitOr prec_OpCoalesce)
       by (rewrite Hk; apply view_nullish).
     split; [|cbn [inv lvl]; rewrite (bin_level_of _ _ _ _ _ _ _ Hv); reflexivity].
-    apply (SP_binary false inf k _ _ _ _ _ xs x ys y Hv); [exact Hsx| |exact Hsy|exact Hiy].
+    apply (SP_binary inf k _ _ _ _ _ xs x ys y Hv); [exact Hsx| |exact Hsy|exact Hiy].
     unfold okl_of. destruct Hix as [Hix|Hix].
     + rewrite Hix, Z.eqb_refl. cbn [negb]. rewrite andb_false_r. reflexivity.
     + destruct (Z.ltb_spec (lvl x) prec_OpBitOr); [lia|reflexivity].
   - (* ?: *)
-    intros inf cs c kq xs x kc ys y dc IHc Hkq dx IHx Hkc dy IHy Hn. cbn [no_pue] in Hn. split_no Hn.
-    destruct (IHc Hn) as [Hsc Hic]. destruct (IHx Hn1) as [Hsx Hix]. destruct (IHy Hn0) as [Hsy Hiy].
+    intros inf cs c kq xs x kc ys y dc IHc Hkq dx IHx Hkc dy IHy.
+    destruct IHc as [Hsc Hic]. destruct IHx as [Hsx Hix]. destruct IHy as [Hsy Hiy].
     cbn [inv code_level] in Hic, Hix, Hiy.
     split; [|cbn [inv code_level lvl]; lia].
-    apply (SP_cond false inf kq prec_OpAssign prec_OpCoalesce prec_OpAssign prec_OpAssign prec_OpAssign cs c xs x kc ys y);
+    apply (SP_cond inf kq prec_OpAssign prec_OpCoalesce prec_OpAssign prec_OpAssign prec_OpAssign cs c xs x kc ys y);
       [rewrite Hkq; apply view_question|exact Hsc|lia|exact Hsx|lia|exact Hkc|exact Hsy|lia].
   - (* , *)
-    intros inf xs x k ys y dx IHx Hk dy IHy Hn. apply no_pue_snoc in Hn. destruct Hn as [Hnx Hny].
-    destruct (IHx Hnx) as [Hsx Hix]. destruct (IHy Hny) as [Hsy Hiy]. cbn [inv code_level] in Hix, Hiy.
+    intros inf xs x k ys y dx IHx Hk dy IHy.
+    destruct IHx as [Hsx Hix]. destruct IHy as [Hsy Hiy]. cbn [inv code_level] in Hix, Hiy.
     split; [|cbn [inv code_level]; destruct x; cbn [comma_snoc lvl]; lia].
-    apply (SP_comma false inf k prec_OpExpr prec_OpAssign prec_OpExpr xs x ys y);
+    apply (SP_comma inf k prec_OpExpr prec_OpAssign prec_OpExpr xs x ys y);
       [rewrite Hk; apply view_comma|exact Hsx|exact Hsy|lia].
   - (* arguments *)
-    intros kc Hkc _. apply SA_end. exact Hkc.
-  - intros ts a kc d IH Hkc Hn. cbn [forallb] in Hn. rewrite andb_true_r in Hn.
-    destruct (IH Hn) as [Hs Hi]. cbn [inv code_level] in Hi. apply SA_last; auto; unfold pratt_args_level; lia.
-  - intros ts a k rest l d IH Hk da IHa Hn. cbn [forallb] in Hn. apply andb_true_iff in Hn. destruct Hn as [Hn1 Hn2].
-    destruct (IH Hn1) as [Hs Hi]. cbn [inv code_level] in Hi. apply SA_more; auto; unfold pratt_args_level; lia.
+    intros kc Hkc. apply SA_end. exact Hkc.
+  - intros ts a kc d IH Hkc.
+    destruct IH as [Hs Hi]. cbn [inv code_level] in Hi. apply SA_last; auto; unfold pratt_args_level; lia.
+  - intros ts a k rest l d IH Hk da IHa.
+    destruct IH as [Hs Hi]. cbn [inv code_level] in Hi. apply SA_more; auto; unfold pratt_args_level; lia.
 Qed.
 
 Theorem derives_spells inf n ts t :
-  derives inf n ts t -> no_pue t = true -> spells false inf ts t /\ inv n t.
+  derives inf n ts t -> spells inf ts t /\ inv n t.
 Proof. intros d. exact (proj1 derives_spells_all inf n ts t d). Qed.
 
 (* ================================================================================================================== *)
-(* spellings are derivations (after deleting the trailing commas of parenthesised lists)                                *)
+(* spellings are derivations *)
 
 Scheme Equality for nt.
 
@@ -343,26 +309,6 @@ Proof.
   eapply derives_chain_star; [apply (reachb_sound _ _ _ H)|exact d].
 Qed.
 
-(* ---- deleting the trailing comma of `( ... , )` ------------------------------------------------------------------ *)
-
-Inductive dropc : bool -> list token -> list token -> Prop :=
-| DC_nil q : dropc q [] []
-| DC_keep q k ts ts' : dropc q ts ts' -> dropc q (k :: ts) (k :: ts')
-| DC_drop km kc ts ts' :
-    ty km = tt_CommaToken -> ty kc = tt_CloseParenToken -> dropc true ts ts' ->
-    dropc true (km :: kc :: ts) (kc :: ts').
-
-Lemma dropc_refl q ts : dropc q ts ts.
-Proof. induction ts; constructor; auto. Qed.
-
-Lemma dropc_app q a a' b b' : dropc q a a' -> dropc q b b' -> dropc q (a ++ b) (a' ++ b').
-Proof. induction 1; intros Hb; cbn [app]; try constructor; auto. Qed.
-
-Lemma dropc_false ts ts' : dropc false ts ts' -> ts = ts'.
-Proof.
-  remember false as q eqn:Eq. induction 1; try reflexivity; try discriminate. f_equal. auto.
-Qed.
-
 (* ---- facts about levels and arms ------------------------------------------------------------------------------------- *)
 
 Ltac view_facts0 inf k Hv :=
@@ -382,15 +328,14 @@ Proof.
   repeat (destruct H as [H|H]; [subst p; try lia; auto|]). contradiction.
 Qed.
 
-Lemma spells_lvl_in q inf ts t : spells q inf ts t -> In (lvl t) lvl_values.
+Lemma spells_lvl_in inf ts t : spells inf ts t -> In (lvl t) lvl_values.
 Proof.
   pose proof prec_order as PO.
   induction 1.
   - destruct (pview_leaf_lvl _ _ H) as [E _]. rewrite E. cbn. tauto.
   - cbn. tauto.
-  - cbn. tauto.
-  - cbn [lvl]. destruct (is_postfix_op pO); cbn; tauto.
-  - cbn [lvl]. destruct (is_postfix_op pO); cbn; tauto.
+  - cbn [lvl]. destruct (is_update_op pO); cbn; tauto.
+  - cbn [lvl]. destruct (is_update_op pO); cbn; tauto.
   - cbn [lvl]. rewrite (bin_level_of _ _ _ _ _ _ _ H). eapply bin_level_in; eauto.
   - view_facts0 inf kd H. cbn [lvl]. destruct (lhs_levels _ IHspells ltac:(lia)) as [E|[E|E]]; rewrite E; unfold cap;
       repeat match goal with |- context [?a <? ?b] => destruct (Z.ltb_spec a b) end; cbn; tauto.
@@ -507,22 +452,21 @@ Proof. vm_compute. repeat split. Qed.
 Lemma chain1 inf a b ts t : In (a, b) chain_prods -> derives inf b ts t -> derives inf a ts t.
 Proof. intros. eapply D_chain; eauto. Qed.
 
-Lemma spells_derives_all q :
-  (forall inf ts t (s : spells q inf ts t), exists ts', dropc q ts ts' /\ derives inf (nt_of (lvl t)) ts' t) /\
-  (forall ats args (s : spells_args q ats args), exists ats', dropc q ats ats' /\ arguments ats' args).
+Lemma spells_derives_all :
+  (forall inf ts t (s : spells inf ts t), derives inf (nt_of (lvl t)) ts t) /\
+  (forall ats args (s : spells_args ats args), arguments ats args).
 Proof.
   pose proof prec_order as PO.
   destruct nt_of_vals as [NP [NM [NC [NU [NY [NA [NE [NO NR]]]]]]]].
-  apply (spells_both_ind q
-           (fun inf ts t _ => exists ts', dropc q ts ts' /\ derives inf (nt_of (lvl t)) ts' t)
-           (fun ats args _ => exists ats', dropc q ats ats' /\ arguments ats' args)).
+  apply (spells_both_ind
+           (fun inf ts t _ => derives inf (nt_of (lvl t)) ts t)
+           (fun ats args _ => arguments ats args)).
   - (* leaf *)
-    intros inf k e Hv. exists [k]. split; [apply dropc_refl|].
+    intros inf k e Hv.
     destruct (pview_leaf_lvl _ _ Hv) as [El _]. rewrite El. replace primary with prec_OpPrimary by lia. rewrite NP.
     destruct (leaf_tok _ _ Hv) as [[Hk E]|[Hk E]]; subst e; [apply D_ident|apply D_literal]; exact Hk.
   - (* parenthesis *)
-    intros inf ko pG pS ts t kc Hv Ht [ts' [Hd Hder]] Hl Hkc.
-    exists (ko :: ts' ++ [kc]). split; [apply DC_keep; apply dropc_app; [exact Hd|apply dropc_refl]|].
+    intros inf ko pG pS ts t kc Hv Ht Hder Hl Hkc.
     cbn [lvl]. replace primary with prec_OpPrimary by lia. rewrite NP.
     apply D_paren; auto.
     + pose proof (pview_bare ko) as Hb. rewrite Hv in Hb. unfold pview in Hv.
@@ -531,54 +475,41 @@ Proof.
       assert (S : forallb (fun t => match pview (bare t) with PGroup _ _ => t =? tt_OpenParenToken | _ => true end)
                     (tt_DivToken :: tt_DivEqToken :: prefix_tokens) = true) by (vm_compute; reflexivity).
       rewrite forallb_forall in S. specialize (S _ Hin). rewrite Hb in S. congruence.
-    + eapply (lift_to true Expression ts' t (fun _ => true)); [exact lf_expression|eapply spells_lvl_in; exact Ht|reflexivity|exact Hder].
-  - (* parenthesis with a trailing comma *)
-    intros inf ko pG pS ts t km kc Hq Hv Ht [ts' [Hd Hder]] Hl Hkm Hkc. subst q.
-    exists (ko :: ts' ++ [kc]). split.
-    { apply DC_keep. apply dropc_app; [exact Hd|]. apply DC_drop; auto. apply DC_nil. }
-    cbn [lvl]. replace primary with prec_OpPrimary by lia. rewrite NP.
-    apply D_paren; auto.
-    + pose proof (pview_bare ko) as Hb. rewrite Hv in Hb.
-      destruct (ty ko =? tt_OpenParenToken) eqn:E; [apply Z.eqb_eq in E; exact E|].
-      exfalso. destruct Hb as [[Hb Hin]|Hb]; [|discriminate].
-      assert (S : forallb (fun t => match pview (bare t) with PGroup _ _ => t =? tt_OpenParenToken | _ => true end)
-                    (tt_DivToken :: tt_DivEqToken :: prefix_tokens) = true) by (vm_compute; reflexivity).
-      rewrite forallb_forall in S. specialize (S _ Hin). rewrite Hb in S. congruence.
-    + eapply (lift_to true Expression ts' t (fun _ => true)); [exact lf_expression|eapply spells_lvl_in; exact Ht|reflexivity|exact Hder].
+    + eapply (lift_to true Expression ts t (fun _ => true)); [exact lf_expression|eapply spells_lvl_in; exact Ht|reflexivity|exact Hder].
   - (* prefix operator *)
-    intros inf k pG pO pS pN ts x Hv Hx [ts' [Hd Hder]] Hl.
+    intros inf k pG pO pS pN ts x Hv Hx Hder Hl.
     pose proof (pfact_all k) as PF. rewrite Hv in PF. cbn [pfact] in PF. b2p.
-    exists (k :: ts'). split; [apply DC_keep; exact Hd|].
-    assert (Hnp : is_postfix_op pO = false) by (destruct (is_postfix_op pO); [discriminate|reflexivity]).
-    cbn [lvl]. rewrite Hnp, NY.
-    assert (Hux : derives inf Unary ts' x).
-    { eapply (lift_to inf Unary ts' x (fun p => prec_OpUnary <=? p)); [exact lf_unary|eapply spells_lvl_in; exact Hx|apply zleb_true; lia|exact Hder]. }
+    cbn [lvl].
+    assert (Hux : derives inf Unary ts x).
+    { eapply (lift_to inf Unary ts x (fun p => prec_OpUnary <=? p)); [exact lf_unary|eapply spells_lvl_in; exact Hx|apply zleb_true; lia|exact Hder]. }
     destruct (unary_prod _ _ _ _ _ Hv) as [Hp|Hp].
-    + eapply D_unary; eauto.
-    + eapply chain1; [|eapply D_prefix_update; eauto]. cbn. tauto.
+    + replace (is_update_op pO) with false.
+      * rewrite NY. eapply D_unary; eauto.
+      * cbn [In unary_prods] in Hp. repeat (destruct Hp as [Hp|Hp]; [inversion Hp; reflexivity|]). contradiction.
+    + replace (is_update_op pO) with true.
+      * rewrite NU. eapply D_prefix_update; eauto.
+      * cbn [In prefix_update_prods] in Hp. repeat (destruct Hp as [Hp|Hp]; [inversion Hp; reflexivity|]). contradiction.
   - (* postfix operator *)
-    intros inf k pL pR pO pN xs x Hv Hlt Hx [xs' [Hd Hder]] Hl.
+    intros inf k pL pR pO pN xs x Hv Hlt Hx Hder Hl.
     view_facts0 inf k Hv.
-    exists (xs' ++ [k]). split; [apply dropc_app; [exact Hd|apply dropc_refl]|].
-    cbn [lvl]. rewrite H1, NU.
+    cbn [lvl]. rewrite (postfix_is_update _ H1), NU.
     eapply D_postfix; eauto using post_prod.
-    eapply (lift_to inf LHS xs' x (fun p => prec_OpLHS <=? p)); [exact lf_lhs|eapply spells_lvl_in; exact Hx|apply zleb_true; lia|exact Hder].
+    eapply (lift_to inf LHS xs x (fun p => prec_OpLHS <=? p)); [exact lf_lhs|eapply spells_lvl_in; exact Hx|apply zleb_true; lia|exact Hder].
   - (* binary operator *)
-    intros inf k pL pR pX pS pN xs x ys y Hv Hx [xs' [Hdx Hderx]] Hok Hy [ys' [Hdy Hdery]] Hl.
-    exists (xs' ++ k :: ys'). split; [apply dropc_app; [exact Hdx|apply DC_keep; exact Hdy]|].
+    intros inf k pL pR pX pS pN xs x ys y Hv Hx Hderx Hok Hy Hdery Hl.
     cbn [lvl]. rewrite (bin_level_of _ _ _ _ _ _ _ Hv).
     pose proof (bin_ok_all inf (ty k)) as BO. unfold bin_ok in BO. rewrite Hv in BO.
-    pose proof (spells_lvl_in _ _ _ _ Hx) as Hinx. pose proof (spells_lvl_in _ _ _ _ Hy) as Hiny.
+    pose proof (spells_lvl_in _ _ _ Hx) as Hinx. pose proof (spells_lvl_in _ _ _ Hy) as Hiny.
     destruct (ty k =? tt_NullishToken) eqn:En.
     { apply Z.eqb_eq in En. rewrite En, view_nullish in Hv. inversion Hv; subst. rewrite NO.
       apply D_coalesce; auto.
-      - eapply (lift_to inf CoalesceHead xs' x _ lf_coalescehead); eauto.
-      - eapply (lift_to inf BitOR ys' y _ lf_bitor); eauto. apply zleb_true. exact Hl. }
+      - eapply (lift_to inf CoalesceHead xs x _ lf_coalescehead); eauto.
+      - eapply (lift_to inf BitOR ys y _ lf_bitor); eauto. apply zleb_true. exact Hl. }
     destruct (ty k =? tt_InToken) eqn:Ei.
     { apply Z.eqb_eq in Ei. subst inf. rewrite Ei, view_in in Hv. inversion Hv; subst. rewrite NR.
       apply D_in; auto.
-      - eapply (lift_to true Relational xs' x _ lf_relational); eauto.
-      - eapply (lift_to true Shift ys' y _ lf_shift); eauto. apply zleb_true. exact Hl. }
+      - eapply (lift_to true Relational xs x _ lf_relational); eauto.
+      - eapply (lift_to true Shift ys y _ lf_shift); eauto. apply zleb_true. exact Hl. }
     destruct (prod_for (ty k)) as [[[[a l] ops] r]|] eqn:Ep; [|discriminate].
     apply andb_true_iff in BO. destruct BO as [B1 B2]. apply internal_nt_dec_bl in B1. rewrite B1.
     destruct (prod_for_in _ _ _ _ _ Ep) as [Hp Hop].
@@ -590,87 +521,77 @@ Proof.
     + eapply derives_chain_star; [apply (reachb_sound _ _ _ Bx)|exact Hderx].
     + eapply derives_chain_star; [apply (reachb_sound _ _ _ By)|exact Hdery].
   - (* dot *)
-    intros inf kd pR pC xs x n Hv Hx [xs' [Hd Hder]] Hl Hn Hp.
+    intros inf kd pR pC xs x n Hv Hx Hder Hl Hn Hp.
     view_facts0 inf kd Hv.
     assert (Hkd : ty kd = tt_DotToken).
     { pose proof (sview_sweep_t (fun t v => match v with ADot _ _ => t =? tt_DotToken | _ => true end)) as S.
       specialize (S (fun _ => eq_refl) ltac:(vm_compute; reflexivity) inf (ty kd)). rewrite Hv in S. apply Z.eqb_eq in S. exact S. }
-    exists (xs' ++ [kd; n]). split; [apply dropc_app; [exact Hd|apply dropc_refl]|].
-    pose proof (spells_lvl_in _ _ _ _ Hx) as Hin.
+    pose proof (spells_lvl_in _ _ _ Hx) as Hin.
     cbn [lvl]. destruct (lhs_levels _ Hin ltac:(lia)) as [E|[E|E]]; rewrite E in *.
     + rewrite cap_le by lia. rewrite NC in *. apply D_call_dot; auto.
     + rewrite cap_ge by lia. rewrite NM in *. apply D_member_dot; auto.
     + rewrite cap_ge by lia. rewrite NM. apply D_member_dot; auto. rewrite NP in Hder. eapply chain1; [|exact Hder]. cbn. tauto.
   - (* index *)
-    intros inf ko pR pC pS xs x ys y kc Hv Hx [xs' [Hdx Hderx]] Hl Hy [ys' [Hdy Hdery]] Hly Hkc.
+    intros inf ko pR pC pS xs x ys y kc Hv Hx Hderx Hl Hy Hdery Hly Hkc.
     view_facts0 inf ko Hv.
     assert (Hko : ty ko = tt_OpenBracketToken).
     { pose proof (sview_sweep_t (fun t v => match v with AIndex _ _ _ => t =? tt_OpenBracketToken | _ => true end)) as S.
       specialize (S (fun _ => eq_refl) ltac:(vm_compute; reflexivity) inf (ty ko)). rewrite Hv in S. apply Z.eqb_eq in S. exact S. }
-    exists (xs' ++ ko :: ys' ++ [kc]). split.
-    { apply dropc_app; [exact Hdx|]. apply DC_keep. apply dropc_app; [exact Hdy|apply dropc_refl]. }
-    assert (Hey : derives true Expression ys' y).
-    { eapply (lift_to true Expression ys' y (fun _ => true)); [exact lf_expression|eapply spells_lvl_in; exact Hy|reflexivity|exact Hdery]. }
-    pose proof (spells_lvl_in _ _ _ _ Hx) as Hin.
+    assert (Hey : derives true Expression ys y).
+    { eapply (lift_to true Expression ys y (fun _ => true)); [exact lf_expression|eapply spells_lvl_in; exact Hy|reflexivity|exact Hdery]. }
+    pose proof (spells_lvl_in _ _ _ Hx) as Hin.
     cbn [lvl]. destruct (lhs_levels _ Hin ltac:(lia)) as [E|[E|E]]; rewrite E in *.
     + rewrite cap_le by lia. rewrite NC in *. apply D_call_index; auto.
     + rewrite cap_ge by lia. rewrite NM in *. apply D_member_index; auto.
     + rewrite cap_ge by lia. rewrite NM. apply D_member_index; auto. rewrite NP in Hderx. eapply chain1; [|exact Hderx]. cbn. tauto.
   - (* call *)
-    intros inf ko pL pR pC xs x ats args Hv Hx [xs' [Hdx Hderx]] Hl Ha [ats' [Hda Hargs]].
+    intros inf ko pL pR pC xs x ats args Hv Hx Hderx Hl Ha Hargs.
     view_facts0 inf ko Hv.
     assert (Hko : ty ko = tt_OpenParenToken).
     { pose proof (sview_sweep_t (fun t v => match v with ACall _ _ _ => t =? tt_OpenParenToken | _ => true end)) as S.
       specialize (S (fun _ => eq_refl) ltac:(vm_compute; reflexivity) inf (ty ko)). rewrite Hv in S. apply Z.eqb_eq in S. exact S. }
-    exists (xs' ++ ko :: ats'). split; [apply dropc_app; [exact Hdx|apply DC_keep; exact Hda]|].
-    pose proof (spells_lvl_in _ _ _ _ Hx) as Hin.
+    pose proof (spells_lvl_in _ _ _ Hx) as Hin.
     cbn [lvl]. destruct (lhs_levels _ Hin ltac:(lia)) as [E|[E|E]]; rewrite E in *.
     + rewrite cap_ge by lia. rewrite NC in *. apply D_call_call; auto.
     + rewrite cap_ge by lia. rewrite NC. rewrite NM in Hderx. apply D_call_member; auto.
     + rewrite cap_ge by lia. rewrite NC. apply D_call_member; auto. rewrite NP in Hderx. eapply chain1; [|exact Hderx]. cbn. tauto.
   - (* conditional *)
-    intros inf kq pL pR pS pE pN cs c xs x kc ys y Hv Hc [cs' [Hdc Hderc]] Hlc Hx [xs' [Hdx Hderx]] Hlx Hkc Hy [ys' [Hdy Hdery]] Hly.
+    intros inf kq pL pR pS pE pN cs c xs x kc ys y Hv Hc Hderc Hlc Hx Hderx Hlx Hkc Hy Hdery Hly.
     view_facts0 inf kq Hv.
     assert (Hkq : ty kq = tt_QuestionToken).
     { pose proof (sview_sweep_t (fun t v => match v with ACond _ _ _ _ _ => t =? tt_QuestionToken | _ => true end)) as S.
       specialize (S (fun _ => eq_refl) ltac:(vm_compute; reflexivity) inf (ty kq)). rewrite Hv in S. apply Z.eqb_eq in S. exact S. }
-    exists (cs' ++ kq :: xs' ++ kc :: ys'). split.
-    { apply dropc_app; [exact Hdc|]. apply DC_keep. apply dropc_app; [exact Hdx|]. apply DC_keep. exact Hdy. }
     cbn [lvl]. rewrite NA. eapply chain1; [cbn; tauto|].
     apply D_cond; auto.
-    + eapply (lift_to inf ShortCircuit cs' c (fun p => prec_OpCoalesce <=? p)); [exact lf_shortcircuit|eapply spells_lvl_in; exact Hc|apply zleb_true; lia|exact Hderc].
-    + eapply (lift_to true Assignment xs' x (fun p => prec_OpAssign <=? p)); [exact lf_assignment|eapply spells_lvl_in; exact Hx|apply zleb_true; lia|exact Hderx].
-    + eapply (lift_to inf Assignment ys' y (fun p => prec_OpAssign <=? p)); [exact lf_assignment|eapply spells_lvl_in; exact Hy|apply zleb_true; lia|exact Hdery].
+    + eapply (lift_to inf ShortCircuit cs c (fun p => prec_OpCoalesce <=? p)); [exact lf_shortcircuit|eapply spells_lvl_in; exact Hc|apply zleb_true; lia|exact Hderc].
+    + eapply (lift_to true Assignment xs x (fun p => prec_OpAssign <=? p)); [exact lf_assignment|eapply spells_lvl_in; exact Hx|apply zleb_true; lia|exact Hderx].
+    + eapply (lift_to inf Assignment ys y (fun p => prec_OpAssign <=? p)); [exact lf_assignment|eapply spells_lvl_in; exact Hy|apply zleb_true; lia|exact Hdery].
   - (* comma *)
-    intros inf k pL pS pN xs x ys y Hv Hx [xs' [Hdx Hderx]] Hy [ys' [Hdy Hdery]] Hl.
+    intros inf k pL pS pN xs x ys y Hv Hx Hderx Hy Hdery Hl.
     view_facts0 inf k Hv.
-    exists (xs' ++ k :: ys'). split; [apply dropc_app; [exact Hdx|apply DC_keep; exact Hdy]|].
     replace (lvl (comma_snoc x y)) with prec_OpExpr by (destruct x; reflexivity). rewrite NE.
     apply D_comma.
-    + eapply (lift_to inf Expression xs' x (fun _ => true)); [exact lf_expression|eapply spells_lvl_in; exact Hx|reflexivity|exact Hderx].
+    + eapply (lift_to inf Expression xs x (fun _ => true)); [exact lf_expression|eapply spells_lvl_in; exact Hx|reflexivity|exact Hderx].
     + eapply sview_comma_tok; exact Hv.
-    + eapply (lift_to inf Assignment ys' y (fun p => prec_OpAssign <=? p)); [exact lf_assignment|eapply spells_lvl_in; exact Hy|apply zleb_true; lia|exact Hdery].
+    + eapply (lift_to inf Assignment ys y (fun p => prec_OpAssign <=? p)); [exact lf_assignment|eapply spells_lvl_in; exact Hy|apply zleb_true; lia|exact Hdery].
   - (* arguments *)
-    intros kc Hkc. exists [kc]. split; [apply dropc_refl|apply A_end; exact Hkc].
-  - intros ts a kc Ha [ts' [Hd Hder]] Hl Hkc. exists (ts' ++ [kc]). split; [apply dropc_app; [exact Hd|apply dropc_refl]|].
+    intros kc Hkc. apply A_end; exact Hkc.
+  - intros ts a kc Ha Hder Hl Hkc.
     apply A_last; auto.
-    eapply (lift_to true Assignment ts' a (fun p => prec_OpAssign <=? p)); [exact lf_assignment|eapply spells_lvl_in; exact Ha|apply zleb_true; lia|exact Hder].
-  - intros ts a km rest l Ha [ts' [Hd Hder]] Hl Hkm Hr [rest' [Hdr Hargs]].
-    exists (ts' ++ km :: rest'). split; [apply dropc_app; [exact Hd|apply DC_keep; exact Hdr]|].
+    eapply (lift_to true Assignment ts a (fun p => prec_OpAssign <=? p)); [exact lf_assignment|eapply spells_lvl_in; exact Ha|apply zleb_true; lia|exact Hder].
+  - intros ts a km rest l Ha Hder Hl Hkm Hr Hargs.
     apply A_cons; auto.
-    eapply (lift_to true Assignment ts' a (fun p => prec_OpAssign <=? p)); [exact lf_assignment|eapply spells_lvl_in; exact Ha|apply zleb_true; lia|exact Hder].
+    eapply (lift_to true Assignment ts a (fun p => prec_OpAssign <=? p)); [exact lf_assignment|eapply spells_lvl_in; exact Ha|apply zleb_true; lia|exact Hder].
 Qed.
 
-Theorem spells_derives q inf ts t :
-  spells q inf ts t -> exists ts', dropc q ts ts' /\ derives inf (nt_of (lvl t)) ts' t.
-Proof. intros s. exact (proj1 (spells_derives_all q) inf ts t s). Qed.
+Theorem spells_derives inf ts t : spells inf ts t -> derives inf (nt_of (lvl t)) ts t.
+Proof. intros s. exact (proj1 spells_derives_all inf ts t s). Qed.
 
 (* at the top: an Expression *)
-Theorem spells_derives_expression q inf ts t :
-  spells q inf ts t -> exists ts', dropc q ts ts' /\ derives inf Expression ts' t.
+Theorem spells_derives_expression inf ts t : spells inf ts t -> derives inf Expression ts t.
 Proof.
-  intros s. destruct (spells_derives _ _ _ _ s) as [ts' [Hd Hder]]. exists ts'. split; [exact Hd|].
-  eapply (lift_to inf Expression ts' t (fun _ => true)); [exact lf_expression|eapply spells_lvl_in; exact s|reflexivity|exact Hder].
+  intros s. pose proof (spells_derives _ _ _ s) as Hder.
+  eapply (lift_to inf Expression ts t (fun _ => true)); [exact lf_expression|eapply spells_lvl_in; exact s|reflexivity|exact Hder].
 Qed.
 
 (* ---- the [In] parameter is vacuous below RelationalExpression ------------------------------------------------------ *)
